@@ -174,17 +174,19 @@ def _eval(mod, case, ctx, open_ids):
     come back within CASE_LIMIT_S (the code under test runs in this process and may loop) is
     abandoned and counted inconclusive: a time limit is never a violation """
     import signal
-    prev = signal.signal(signal.SIGALRM, _on_case_alarm)
+    # a CPU-time timer (SIGVTALRM): the tool under test installs its own SIGALRM handler for
+    # --timeout-seconds and cancels pending alarms, so the real-time alarm cannot be shared
+    prev = signal.signal(signal.SIGVTALRM, _on_case_alarm)
     limit = getattr(mod, 'CASE_LIMIT', CASE_LIMIT_S)[getattr(ctx, 'tier', 'quick')]
-    signal.alarm(limit)
+    signal.setitimer(signal.ITIMER_VIRTUAL, limit)
     try:
         out = mod.prop(case, ctx)
     except _CaseHang:
         out = Outcome()
-        out.inconclusive = 'case_abandoned_after_%ds' % limit
+        out.inconclusive = 'case_abandoned_after_%ds_cpu' % limit
     finally:
-        signal.alarm(0)
-        signal.signal(signal.SIGALRM, prev)
+        signal.setitimer(signal.ITIMER_VIRTUAL, 0)
+        signal.signal(signal.SIGVTALRM, prev)
     if out.violation is None:
         unregistered = [k for k in out.known if k not in open_ids]
         if unregistered:
